@@ -370,6 +370,8 @@ def gen_recipes(ctx):
                     R.append([G.gen_create_ensure_sorted(rng, "es.cool", how, api, symm=symm)])
     # --- interplay of documented options: the full boolean grid of the validation switches per producer
     R += G.gen_option_grid(rng)
+    # --- invalid input: single out-of-range ids; refusal expected, never an invalid file
+    R += G.gen_invalid_grid(rng, thorough)
     # --- producer options with valid input (each must leave a valid collection)
     def with_opts(step, **opts):
         st = dict(step)
@@ -609,7 +611,14 @@ def check_recipe(ctx, recipe, pending, tag, created=None):
     kinds = "+".join(st["op"] + (":" + st["input"] if st["op"] == "create" else "") for st in recipe)
     if outcome == "timeout":
         ctx.extra["recipe_timeouts"] = ctx.extra.get("recipe_timeouts", 0) + 1
-    if outcome != "ok":
+    refuse = any(st.get("expect") == "refuse" for st in recipe)
+    if refuse:
+        # invalid input: the model (validate_pixels with boundscheck) predicts a refusal; if the producer writes a
+        # file nevertheless, that file is held to the whole schema below
+        ctx.case(case, nontrivial=True, kind="e2e-refuse:" + kinds)
+        ctx.compare("producer outcome on an out-of-range bin id", case, "refused" if outcome.startswith("error:") else outcome, "refused")
+        created = None
+    elif outcome != "ok":
         ctx.case(case, nontrivial=False, kind="e2e-error:" + kinds)
         # the model of the producers predicts success on every recipe we generate
         ctx.compare("producer outcome", case, outcome, "ok")
